@@ -45,6 +45,9 @@ REQUIRE = {
     "text_only_change_cases": 150,
     "rows_before_render_checks": 2500,
     "random_cases": 200,
+    "control_char_cases": 3000,
+    "control_char_all_ascii_str_cases": 1500,
+    "exh_strings:PCtl": 20,
     "encoding_interleave_cases": 3000,
     "encoding_switches_same_width": 2000,
     "encoding_switches_same_width_trimmed_ellipsis": 150,
@@ -68,13 +71,20 @@ RULE = (
     "exh_phase_complete:<phase> = number of shards that finished it). Rest of the budget: random texts to length 60 over "
     "ASCII/Latin-1/CJK/combining/ZWJ/VS16/emoji/line-drawing, widths to 40, encodings utf-8, euc-jp, gbk, big5, iso8859-1, "
     "ascii, koi8-r, plus same-config-other-width and text-only-change follow-ups (translation cache), pack(())/render(()) "
-    "and shift_line/trim_line window views. Encoding histories: fixed and random cases are laid out at the same width under "
+    "and shift_line/trim_line window views. ASCII control characters (TAB, NUL, DEL, other C0 except newline and SO/SI; zero "
+    "columns in str and utf-8 bytes, one column in 8-bit byte texts) appear in the random pools (incl. an all-ASCII style) and "
+    "in a small exhaustive phase PCtl: every string of length <=4 (quick) / <=5 (thorough) over {a,space,TAB,newline(,DEL)} "
+    "containing a control character x widths x wraps x aligns (utf-8 str; utf-8 and iso8859-1 bytes rotating). Encoding histories: fixed and random cases are laid out at the same width under "
     "interleaved encodings in one process (utf-8, cp1252, mac_roman, iso8859-1, cp1251, euc-jp, ascii, gbk; forward and "
     "reversed), including 8-bit code pages whose ellipsis string equals utf-8's but encodes to other bytes. distinct = distinct case tuples; non-trivial = text non-empty"
 )
 ASSUMES = [
     "display width of a code point = max(0, wcwidth.wcwidth(cp)); str texts are judged by code point, bytes by the encoding mode",
-    "texts contain only characters representable in the target encoding with encoded length == width (wide/narrow) and no control characters except newline",
+    "texts contain only characters representable in the target encoding with encoded length == width (wide/narrow); ASCII control "
+    "characters are in the domain as str only under utf-8 (zero columns by wcwidth<0 -> 0) and as bytes everywhere (one column per "
+    "byte in wide/narrow); SO/SI and C1 controls are excluded; what a terminal does with control bytes is not judged (C04)",
+    "pack(()) / render(()) (unlimited width) is not judged for texts with control characters: pack(()) splits with str.splitlines() and "
+    "measures decoded bytes with the str table, outside the C03 statement",
     "a word is a maximal run of non-space narrow characters; a boundary next to a double-width character is a legal 'space' break",
     "'space' break rule is applied when every word of the whole text fits",
     "each omitted space/newline needs its own line break (two spaces at a wrap = two wrap points, one an empty line)",
@@ -114,6 +124,15 @@ RANDOM_POOL = (
 )
 
 
+# ASCII control characters: zero columns by urwid's own width table (wcwidth < 0 -> 0) in str and utf-8 bytes, one
+# column (one byte) in wide/narrow byte texts.  SO/SI (0x0e, 0x0f) are charset shifts handled by apply_target_encoding
+# (C17) and stay out.  What a terminal does with them is C04's business.
+CONTROLS = frozenset(chr(c) for c in [*range(0x00, 0x0A), *range(0x0B, 0x0E), *range(0x10, 0x20), 0x7F])
+CONTROL_POOL = ["\t", "\t", "\x00", "\x01", "\x07", "\x08", "\x0b", "\x0c", "\r", "\x1b", "\x1f", "\x7f"]
+
+
+ASCII_CONTROL_POOL = list("abcxyz01.,") + [" "] * 5 + ["\n"] + CONTROL_POOL
+RANDOM_POOL = RANDOM_POOL + ["\t", "\x00", "\x7f", "\r"]
 _MODES = dict(EXH_ENCODINGS + RND_ENCODINGS)
 
 
@@ -121,17 +140,17 @@ def mode_of(enc):
     return _MODES[enc]
 
 
-def fit_text(s, enc):
+def fit_text(s, enc, as_bytes=False):
     """the str restricted to the characters that are in the documented domain for enc"""
     mode = mode_of(enc)
-    return "".join(c for c in s if valid_char(c, enc, mode))
+    return "".join(c for c in s if valid_char(c, enc, mode, as_bytes))
 
 
 def interleave(ctx, st, s, width, wrap, align, order, as_bytes=False):
     """one case under a sequence of encodings at the same width, in this process"""
     last = None
     for enc in order:
-        t = fit_text(s, enc)
+        t = fit_text(s, enc, as_bytes)
         text = to_bytes(t, enc, mode_of(enc)) if as_bytes else t
         run_one(ctx, st, {"enc": enc, "text": text, "width": width, "wrap": wrap, "align": align}, light=True)
         ctx.count("encoding_interleave_cases")
@@ -142,9 +161,12 @@ def interleave(ctx, st, s, width, wrap, align, order, as_bytes=False):
         last = enc
 
 
-def valid_char(ch, enc, mode):
+def valid_char(ch, enc, mode, as_bytes=False):
     if ch in ("\n", " "):
         return True
+    if ch in CONTROLS:
+        # str: only where encoded length need not equal the width (utf-8); bytes: a plain byte in every mode
+        return mode == "utf8" or as_bytes
     w = M.cw(ch)
     if ord(ch) < 0x20 or ord(ch) == 0x7F or 0x80 <= ord(ch) < 0xA0:
         return False
@@ -167,10 +189,10 @@ def valid_char(ch, enc, mode):
 _alpha_cache = {}
 
 
-def alphabet(enc, mode, pool):
-    key = (enc, id(pool))
+def alphabet(enc, mode, pool, as_bytes=False):
+    key = (enc, id(pool), as_bytes)
     if key not in _alpha_cache:
-        _alpha_cache[key] = [c for c in pool if valid_char(c, enc, mode)]
+        _alpha_cache[key] = [c for c in pool if valid_char(c, enc, mode, as_bytes)]
     return _alpha_cache[key]
 
 
@@ -385,6 +407,13 @@ def check_fixed(ctx, st, case, collect):
 
     enc, text = case["enc"], case["text"]
     mode = mode_of(enc)
+    ctl = CONTROLS if isinstance(text, str) else {ord(c) for c in CONTROLS}
+    if any(c in ctl for c in text):
+        # pack(()) splits lines with str.splitlines() (also at \r \x0b \x0c \x1c-\x1e) and measures decoded bytes with
+        # the str width table: with control characters it disagrees with the layout.  The unlimited-width view is not
+        # part of the C03 statement (C01's size contract), so such texts are not judged here; counted instead.
+        ctx.counters["pack_fixed_skipped_control_chars"] += 1
+        return
     set_enc(st, enc)
     D = M.Dec(text, mode)
     paras = D.paragraphs()
@@ -789,6 +818,30 @@ def _run(ctx):
                 order = ENC_CYCLE if k % 2 else ENC_CYCLE[::-1]
                 interleave(ctx, st, s0, w, wrap, ALIGNS[k % 3], order, as_bytes=bool(k // 2 % 2))
 
+    # ---- exhaustive, small: all-ASCII texts with control characters (zero columns in str / utf-8 bytes, one column per
+    # byte in 8-bit byte texts): utf-8 str with every alignment, utf-8 bytes and iso8859-1 bytes with rotating alignment
+    ctl_alpha = ["a", " ", "\t", "\n"] + ctx.pick([], ["\x7f"])
+    k = 0
+    for ln in range(1, ctx.pick(4, 5) + 1):
+        for tup in itertools.product(ctl_alpha, repeat=ln):
+            if "\t" not in tup and "\x7f" not in tup:
+                continue
+            k += 1
+            if not ctx.mine(k) or not ctx.more(0.3):
+                continue
+            s0 = "".join(tup)
+            for w in widths:
+                for wrap in WRAPS:
+                    for al in ALIGNS:
+                        run_one(ctx, st, {"enc": "utf-8", "text": s0, "width": w, "wrap": wrap, "align": al}, light=al != "left")
+                        ctx.count("control_char_cases")
+                        ctx.count("control_char_all_ascii_str_cases")
+                    al = ALIGNS[(k + w + len(wrap)) % 3]
+                    for enc in ("utf-8", "iso8859-1"):
+                        run_one(ctx, st, {"enc": enc, "text": s0.encode(enc), "width": w, "wrap": wrap, "align": al}, light=True)
+                        ctx.count("control_char_cases")
+            ctx.count("exh_strings:PCtl")
+
     # ---- exhaustive core, in phases ordered by value so that a budget cut (loaded machine) loses the least:
     #   P0  every string of length <= 3 (quick) / 4 (thorough): full product widths x wraps x aligns x {str, bytes} x 3 encodings
     #   PA  every longer string: widths x wraps, alignment rotating; utf-8 as str, euc-jp / iso8859-1 as bytes
@@ -874,15 +927,26 @@ def _run(ctx):
     while ctx.more(1.0) and k < ctx.pick(200000, 5000000):
         k += 1
         enc, mode = rng.choice(RND_ENCODINGS)
-        alpha = alphabet(enc, mode, RANDOM_POOL)
+        as_bytes = rng.random() < 0.5
         style = rng.random()
         n = rng.randint(0, 60) if style < 0.7 else rng.randint(0, 12)
-        if style < 0.25:
+        if style < 0.18:
+            # all-ASCII lines with control characters (zero columns in str / utf-8 bytes, one in 8-bit byte texts)
+            alpha = alphabet(enc, mode, ASCII_CONTROL_POOL, as_bytes)
+            n = min(n, 24)
+            s = "".join(rng.choice(alpha) for _ in range(n))
+        elif style < 0.4:
+            alpha = alphabet(enc, mode, RANDOM_POOL, as_bytes)
             sub = rng.sample(alpha, min(len(alpha), 4)) + [" "]
             s = "".join(rng.choice(sub) for _ in range(n))
         else:
+            alpha = alphabet(enc, mode, RANDOM_POOL, as_bytes)
             s = "".join(rng.choice(alpha) for _ in range(n))
-        text = s if rng.random() < 0.5 else to_bytes(s, enc, mode)
+        text = to_bytes(s, enc, mode) if as_bytes else s
+        if any(c in CONTROLS for c in s):
+            ctx.count("control_char_cases")
+            if not as_bytes and s.isascii():
+                ctx.count("control_char_all_ascii_str_cases")
         lw = max((M.Dec(text, mode).cwidth(a, b) for a, b in M.Dec(text, mode).paragraphs()), default=0)
         w = rng.randint(1, 40) if rng.random() < 0.5 else max(1, min(40, lw + rng.randint(-6, 2)))
         if rng.random() < 0.15:
